@@ -1,3 +1,3 @@
 //@ ret r
 //@ contract
-        ensures r == self.to_response_spec(builder)
+        ensures self.to_response_rel(builder.status, builder.failed, hm_view(builder.hdrs), r)
